@@ -78,6 +78,11 @@ Inductive kind :=
 
 Inductive side := L | R.   (* which operand's metamap / object a function belongs to *)
 
+(* how a user function fails: `throw value` (ErrorKind::KotoError) or a runtime error raised
+   inside it, at any call depth below it (failed access, type error, failed assert: any other
+   ErrorKind) *)
+Inductive errkind := Thrown | Runtime.
+
 (* what a user function does when it is called *)
 Inductive fres :=
 | FBool (b : bool)   (* returns a Bool *)
@@ -86,7 +91,7 @@ Inductive fres :=
 | FNull              (* returns null *)
 | FSeq               (* @iterator only: returns a List of two values (iterable, not an iterator) *)
 | FUnimpl            (* throws koto.unimplemented / host method returns the Unimplemented error *)
-| FErr.              (* throws some other error *)
+| FErr (ek : errkind).   (* fails with some other error *)
 
 Definition oracle := side -> metakey -> fres.
 
@@ -117,7 +122,7 @@ Inductive errc :=
 | EBinaryOp        (* ErrorKind::InvalidBinaryOp *)
 | EUnimplObj       (* ErrorKind::Unimplemented escaping from a host object's default method *)
 | EThrownUnimpl    (* koto.unimplemented thrown by a script function and not caught by the VM *)
-| EUser            (* the user function's own error, propagated *)
+| EUser (ek : errkind)   (* the user function's own error, propagated UNCHANGED *)
 | EType            (* ErrorKind::UnexpectedType *)
 | EString          (* a runtime_error! string ("Unable to index ..", ".. not found ..") *)
 .
@@ -140,7 +145,7 @@ Definition map_call_value (o : oracle) (s : side) (k : metakey) (self : who) (ar
   ([Ev s k self args],
    match o s k with
    | FUnimpl => OErr EThrownUnimpl
-   | FErr => OErr EUser
+   | FErr ek => OErr (EUser ek)
    | _ => OFn s k
    end).
 
@@ -151,7 +156,7 @@ Definition obj_call (o : oracle) (s : side) (hs : keyset) (k : metakey) (self : 
 
 Definition obj_call_value (o : oracle) (s : side) (hs : keyset) (k : metakey) (self : who) (args : list who) : action :=
   let (evs, r) := obj_call o s hs k self args in
-  (evs, match r with FUnimpl => OErr EUnimplObj | FErr => OErr EUser | _ => OFn s k end).
+  (evs, match r with FUnimpl => OErr EUnimplObj | FErr ek => OErr (EUser ek) | _ => OFn s k end).
 
 (* ordered arm lists: the first arm whose guard holds is taken, like a Rust `match` *)
 Definition arm := ((kind -> kind -> bool) * (kind -> kind -> action))%type.
@@ -189,7 +194,7 @@ Definition rhs_map_call (o : oracle) (a : arith) : action :=
 (* call_object_binary_op!: o_rhs.<op>_rhs(lhs); Unimplemented becomes InvalidBinaryOp *)
 Definition rhs_obj_call (o : oracle) (a : arith) (hs : keyset) : action :=
   let (evs, r) := obj_call o R hs (k_rhs a) WR [WL] in
-  (evs, match r with FUnimpl => OErr EBinaryOp | FErr => OErr EUser | _ => OFn R (k_rhs a) end).
+  (evs, match r with FUnimpl => OErr EBinaryOp | FErr ek => OErr (EUser ek) | _ => OFn R (k_rhs a) end).
 
 (* what both call_metamap_arithmetic_op! and call_object_arithmetic_op! do once the lhs has
    reported `unimplemented` *)
@@ -200,12 +205,15 @@ Definition rhs_fallback (o : oracle) (a : arith) (r : kind) : action :=
   | _ => ([], OErr EBinaryOp)
   end.
 
-(* call_metamap_arithmetic_op!: run the lhs function NOW; on koto.unimplemented fall back *)
+(* call_metamap_arithmetic_op!: run the lhs function NOW; on koto.unimplemented fall back.
+   The Err arm: pop the barrier frame; not a KotoError => return Err(error); a KotoError whose
+   thrown value is not koto.unimplemented => return Err(error); else look at the rhs *)
 Definition lhs_map_arith (o : oracle) (a : arith) (r : kind) : action :=
   let e := Ev L (k_op a) WL [WR] in
   match o L (k_op a) with
+  | FErr Runtime => ([e], OErr (EUser Runtime))     (* `let ErrorKind::KotoError {..} = .. else { return Err(error) }` *)
+  | FErr Thrown => ([e], OErr (EUser Thrown))       (* thrown, but not the Unimplemented object *)
   | FUnimpl => let (evs, out) := rhs_fallback o a r in (e :: evs, out)
-  | FErr => ([e], OErr EUser)
   | _ => ([e], OFn L (k_op a))
   end.
 
@@ -214,7 +222,7 @@ Definition lhs_obj_arith (o : oracle) (a : arith) (hs : keyset) (r : kind) : act
   let (evs, res) := obj_call o L hs (k_op a) WL [WR] in
   match res with
   | FUnimpl => let (evs2, out) := rhs_fallback o a r in (evs ++ evs2, out)
-  | FErr => (evs, OErr EUser)
+  | FErr ek => (evs, OErr (EUser ek))
   | _ => (evs, OFn L (k_op a))
   end.
 
@@ -243,11 +251,11 @@ Definition assign_arms (o : oracle) (a : arith) : list arm :=
     (lhs (map_has (k_assign a)),
      const ([Ev L (k_assign a) WL [WR]],
             match o L (k_assign a) with
-            | FUnimpl => OErr EThrownUnimpl | FErr => OErr EUser | _ => OLhs end));
+            | FUnimpl => OErr EThrownUnimpl | FErr ek => OErr (EUser ek) | _ => OLhs end));
     (* (Object(o), Object(o2)) if o2.is_same_instance(o2) and (Object(o), _) behave alike *)
     (lhs is_obj, fun l _ =>
        let (evs, res) := obj_call o L (keys_of l) (k_assign a) WL [WR] in
-       (evs, match res with FUnimpl => OErr EUnimplObj | FErr => OErr EUser | _ => OLhs end)) ].
+       (evs, match res with FUnimpl => OErr EUnimplObj | FErr ek => OErr (EUser ek) | _ => OLhs end)) ].
 
 Definition run_assign (o : oracle) (a : arith) (l r : kind) : action :=
   first_arm (assign_arms o a) ([], OErr EBinaryOp) l r.
@@ -262,7 +270,7 @@ Definition map_call_bool (o : oracle) (k : metakey) : list event * bres :=
    match o L k with
    | FBool b => BOk b
    | FUnimpl => BFail EThrownUnimpl
-   | FErr => BFail EUser
+   | FErr ek => BFail (EUser ek)
    | _ => BFail EType
    end).
 
@@ -273,7 +281,7 @@ Definition obj_call_bool (o : oracle) (hs : keyset) (k : metakey) : list event *
   (evs, match r with
         | FBool b => BOk b
         | FUnimpl => BFail EUnimplObj
-        | FErr => BFail EUser
+        | FErr ek => BFail (EUser ek)
         | _ => BOk true
         end).
 
@@ -389,7 +397,7 @@ Definition display_value (o : oracle) (k : metakey) : action :=
   ([Ev L k WL []],
    match o L k with
    | FUnimpl => OErr EThrownUnimpl
-   | FErr => OErr EUser
+   | FErr ek => OErr (EUser ek)
    | FVal => OFn L k
    | _ => OErr EType      (* Bool / Null / List results: "expected String" *)
    end).
@@ -434,14 +442,14 @@ Definition next_calls (in_for : bool) (o : oracle) (k : metakey) : action :=
   match o L k with
   | FNull => ([e], OIter 0 (Some (L, k)))
   | FUnimpl => ([e], OErr (if in_for then EString else EThrownUnimpl))
-  | FErr => ([e], OErr (if in_for then EString else EUser))
+  | FErr ek => ([e], OErr (if in_for then EString else (EUser ek)))
   | _ => ([e; e; e], OIter 2 (Some (L, k)))
   end.
 
 Definition obj_next_calls (o : oracle) (k : metakey) : action :=
   let e := Ev L k WL [] in
   match o L k with
-  | FNull | FUnimpl | FErr => ([e], OIter 0 (Some (L, k)))   (* iterator_next returns Option: None ends *)
+  | FNull | FUnimpl | FErr _ => ([e], OIter 0 (Some (L, k)))   (* iterator_next returns Option: None ends *)
   | _ => ([e; e; e], OIter 2 (Some (L, k)))
   end.
 
@@ -455,7 +463,7 @@ Definition run_for (o : oracle) (x : kind) : action :=
         match o L k_iterator with
         | FVal => ([e], OIter 2 (Some (L, k_iterator)))    (* an iterator: iterated *)
         | FUnimpl => ([e], OErr EThrownUnimpl)
-        | FErr => ([e], OErr EUser)
+        | FErr ek => ([e], OErr (EUser ek))
         | _ => ([e], OErr EType)   (* the result is put in the register as is: "expected Iterator" *)
         end
       else ([], OBuiltin RIterBuiltin)
@@ -465,7 +473,7 @@ Definition run_for (o : oracle) (x : kind) : action :=
         let e := Ev L k_iterator WL [] in
         match o L k_iterator with
         | FUnimpl => ([e], OErr EUnimplObj)
-        | FErr => ([e], OErr EUser)
+        | FErr ek => ([e], OErr (EUser ek))
         | _ => ([e], OIter 2 (Some (L, k_iterator)))
         end
       else ([], OBuiltin RIterOnce)
@@ -485,7 +493,7 @@ Definition run_to_tuple (o : oracle) (x : kind) : action :=
         match o L k_iterator with
         | FVal | FSeq => ([e], OIter 2 (Some (L, k_iterator)))  (* make_iterator of the result *)
         | FUnimpl => ([e], OErr EThrownUnimpl)
-        | FErr => ([e], OErr EUser)
+        | FErr ek => ([e], OErr (EUser ek))
         | _ => ([e], OErr EType)
         end
       else ([], OErr EString)
@@ -495,7 +503,7 @@ Definition run_to_tuple (o : oracle) (x : kind) : action :=
         let e := Ev L k_iterator WL [] in
         match o L k_iterator with
         | FUnimpl => ([e], OErr EUnimplObj)
-        | FErr => ([e], OErr EUser)
+        | FErr ek => ([e], OErr (EUser ek))
         | _ => ([e], OIter 2 (Some (L, k_iterator)))
         end
       else ([], OErr EString)
@@ -517,7 +525,7 @@ Definition run_reversed (o : oracle) (x : kind) : action :=
         match o L k_iterator with
         | FVal | FSeq => ([e], OIter 2 (Some (L, k_iterator)))  (* tuple iterators and lists are bidirectional *)
         | FUnimpl => ([e], OErr EThrownUnimpl)
-        | FErr => ([e], OErr EUser)
+        | FErr ek => ([e], OErr (EUser ek))
         | _ => ([e], OErr EType)
         end
       else ([], OErr EString)
@@ -528,7 +536,7 @@ Definition run_reversed (o : oracle) (x : kind) : action :=
         let e := Ev L k_iterator WL [] in
         match o L k_iterator with
         | FUnimpl => ([e], OErr EUnimplObj)
-        | FErr => ([e], OErr EUser)
+        | FErr ek => ([e], OErr (EUser ek))
         | _ => ([e], OIter 2 (Some (L, k_iterator)))
         end
       else ([], OErr EString)
@@ -569,11 +577,11 @@ Definition run_index_assign (o : oracle) (l r : kind) : action :=
       if has k_index_assign ks then
         ([Ev L k_index_assign WL [WR; WVal]],
          match o L k_index_assign with
-         | FUnimpl => OErr EThrownUnimpl | FErr => OErr EUser | _ => OLhs end)
+         | FUnimpl => OErr EThrownUnimpl | FErr ek => OErr (EUser ek) | _ => OLhs end)
       else ([], OErr EType)   (* Number index: the value must be a 2-tuple; else: "expected Number" *)
   | VObject hs =>
       let (evs, res) := obj_call o L hs k_index_assign WL [WR; WVal] in
-      (evs, match res with FUnimpl => OErr EUnimplObj | FErr => OErr EUser | _ => OLhs end)
+      (evs, match res with FUnimpl => OErr EUnimplObj | FErr ek => OErr (EUser ek) | _ => OLhs end)
   | _ => ([], OErr EType)
   end.
 
@@ -584,12 +592,29 @@ Definition run_access_assign (o : oracle) (l : kind) : action :=
       if has k_access_assign ks then
         ([Ev L k_access_assign WL [WKey; WVal]],
          match o L k_access_assign with
-         | FUnimpl => OErr EThrownUnimpl | FErr => OErr EUser | _ => OLhs end)
+         | FUnimpl => OErr EThrownUnimpl | FErr ek => OErr (EUser ek) | _ => OLhs end)
       else ([], OBuiltin RMapInsert)
   | VObject hs =>
       let (evs, res) := obj_call o L hs k_access_assign WL [WKey; WVal] in
-      (evs, match res with FUnimpl => OErr EUnimplObj | FErr => OErr EUser | _ => OLhs end)
+      (evs, match res with FUnimpl => OErr EUnimplObj | FErr ek => OErr (EUser ek) | _ => OLhs end)
   | _ => ([], OErr EType)
+  end.
+
+(* ---------------------------------------------------------------- frames under an execution barrier *)
+
+(* Three places run a metamap function NOW (call_overridden_op_N, then
+   `frame_mut().execution_barrier = true; execute_instructions()`): call_metamap_arithmetic_op!
+   (the lhs function), run_overridden_comparison_op (derived comparisons) and run_iterator_next
+   (@next in a for loop).  The function's frame leaves the call stack either by returning or,
+   when it fails, through the `pop_frame` that each Err arm does FIRST, whatever the error is.
+   A frame left behind would sit between the error and the handlers of the enclosing frames:
+   the error would then not reach the innermost enclosing `catch`. *)
+Inductive cleanup := ByReturn | ByErrArm | LeftBehind.
+
+Definition barrier_cleanup (r : fres) : cleanup :=
+  match r with
+  | FUnimpl | FErr _ => ByErrArm
+  | _ => ByReturn
   end.
 
 (* ---------------------------------------------------------------- one entry point *)
@@ -637,6 +662,22 @@ Definition inspected (p : op) : list metakey :=
   | OpIndexAssign => [k_index_assign]
   | OpAccessAssign => [k_access_assign]
   end.
+
+(* is this event one of the run-NOW calls? *)
+Definition at_barrier (p : op) (l : kind) (e : event) : bool :=
+  match p, l, ev_owner e with
+  | OpArith a, VMap _, L => metakey_eqb (ev_key e) (k_op a)
+  | OpCmp c, VMap ks, L => negb (has (k_cmp c) ks) && negb (metakey_eqb (ev_key e) (k_cmp c))
+  | OpUnary UFor, VMap _, L => metakey_eqb (ev_key e) k_next
+  | _, _, _ => false
+  end.
+
+(* frames the dispatch leaves on the call stack; an error outcome is delivered to the handler
+   `leftover_frames` levels outside the innermost one enclosing the operator (0 = innermost) *)
+Definition leftover_frames (o : oracle) (p : op) (l r : kind) : nat :=
+  List.length (filter (fun e => at_barrier p l e &&
+                                match barrier_cleanup (o (ev_owner e) (ev_key e)) with LeftBehind => true | _ => false end)
+                      (fst (dispatch o p l r))).
 
 (* ---------------------------------------------------------------- `.` access (run_access_inner) *)
 
